@@ -205,7 +205,7 @@ package dht
 //@   requires unlocked-wrapper: !held(s.store.mu)
 //@   requires globals: krpcErrMissingArguments.Code == 203 && krpc.ErrorMethodUnknown.Code == 204
 //@   requires bep44-globals: bep44.ErrValueFieldTooBig.Code == 205 && bep44.ErrInvalidSignature.Code == 206 && bep44.ErrSaltFieldTooBig.Code == 207 && bep44.ErrCasHashMismatched.Code == 301 && bep44.ErrSequenceNumberLessThanCurrent.Code == 302 && bep44.Empty32ByteArray == 0 && bep44.ErrItemNotFound != nil
-//@   modifies *
+//@   modifies types node, bucket, table, time.Time, bep44.Item, krpc.Return, peer_store.InMemory, krpc.NodeAddr, raw:dht/krpc.NodeAddr
 //@   callsite (*dht.Server).reply to-the-asker: $addr == source && $t == m.T
 //@   callsite (*dht.Server).sendError to-the-asker: $addr == source && $t == m.T
 //@   callsite (*dht.Server).reply not-passive: !s.config.Passive && (s.config.OnQuery != nil ==> recorded("propagate"))
@@ -222,3 +222,75 @@ package dht
 //@   ensures answered-when-due: !s.config.Passive && (s.config.OnQuery != nil ==> recorded("propagate")) && (writes(m.Q) ==> m.A != nil && recorded("tokenok")) ==> replies() == 1
 //@   ensures unknown-method-gets-an-error: !s.config.Passive && (s.config.OnQuery != nil ==> recorded("propagate")) && !known(m.Q) ==> count("call:(*dht.Server).sendError") == 1
 //@   ensures missing-arguments-get-an-error: !s.config.Passive && (s.config.OnQuery != nil ==> recorded("propagate")) && needsargs(m.Q) && m.A == nil ==> count("call:(*dht.Server).sendError") == 1
+
+// ---- C19 / C20 / C14: the single place where datagrams leave the node ----
+//@ func (dht.Addr).Raw
+//@   trusted
+//@   option uf
+//@   option noalloc
+//@   ensures result == self.Raw()
+//@ func (dht.Addr).KRPC
+//@   trusted
+//@   option uf
+//@   option noalloc
+//@   ensures result == self.KRPC()
+
+// recorded("closed"): what s.closed.IsSet() returned; recorded("blocked"): whether the blocklist covers the address;
+// recorded("waiterr") / recorded("allowed"): what the send limiter answered.
+//@ func (*dht.Server).writeToNode
+//@   requires nonnil: s != nil && node != nil && s.socket != nil
+//@   requires limiter: rate ==> s.config.SendLimiter != nil
+//@   requires unlocked: !held(s.mu)
+//@   callsite (github.com/anacrolix/torrent/iplist.Ranger).Lookup looks-up-the-destination: $0 == node.IP()
+//@   callsite (net.PacketConn).WriteTo not-after-close: !recorded("closed")
+//@   callsite (net.PacketConn).WriteTo not-to-a-blocked-address: s.ipBlockList == nil || !recorded("blocked")
+//@   callsite (net.PacketConn).WriteTo rated-sends-hold-a-token: rate ==> (wait ? recorded("waiterr") == nil : recorded("allowed"))
+//@   callsite (net.PacketConn).WriteTo the-bytes-to-the-node: $p == b && $addr == node.Raw()
+//@   ensures one-write-at-most: count("call:(net.PacketConn).WriteTo") <= 1
+//@   ensures wrote-means-written: wrote ==> count("call:(net.PacketConn).WriteTo") == 1
+//@   ensures closed-means-error: recorded("closed") ==> err != nil && count("call:(net.PacketConn).WriteTo") == 0
+//@   ensures no-budget-no-send: rate && !wait && count("call:(*golang.org/x/time/rate.Limiter).Allow") == 1 && !recorded("allowed") ==> err != nil && count("call:(net.PacketConn).WriteTo") == 0
+//@   ensures failed-wait-no-send: rate && wait && count("call:(*golang.org/x/time/rate.Limiter).Wait") == 1 && recorded("waiterr") != nil ==> err != nil && count("call:(net.PacketConn).WriteTo") == 0
+
+// ---- C08: the datagram that answers a query ----
+// reply / sendError spawn these closures; each builds one message, marshals it once and hands it to writeToNode once,
+// rate-limited, addressed to the asker.
+//@ spec def sendable(s *Server) bool = s != nil && s.socket != nil && s.config.SendLimiter != nil && !held(s.mu)
+
+//@ func (*dht.Server).reply$1
+//@   requires nonnil: sendable(s) && addr != nil
+//@   modifies r.ID
+//@   callsite github.com/anacrolix/torrent/bencode.MustMarshal the-response: typeis($v, krpc.Msg) && unbox($v, krpc.Msg).T == t && unbox($v, krpc.Msg).Y == "r" && unbox($v, krpc.Msg).Q == "" && unbox($v, krpc.Msg).E == nil && unbox($v, krpc.Msg).R == &r && r.ID == s.id.bits && unbox($v, krpc.Msg).IP == addr.KRPC()
+//@   callsite (*dht.Server).writeToNode one-rated-write-to-the-asker: $node == addr && $rate && $wait == s.config.WaitToReply && $b == recorded("marshalled")
+//@   ensures one-send: count("call:(*dht.Server).writeToNode") == 1 && count("call:github.com/anacrolix/torrent/bencode.MustMarshal") == 1
+
+//@ func (*dht.Server).sendError$1
+//@   requires nonnil: sendable(s) && addr != nil
+//@   callsite github.com/anacrolix/torrent/bencode.Marshal the-error: typeis($v, krpc.Msg) && unbox($v, krpc.Msg).T == t && unbox($v, krpc.Msg).Y == "e" && unbox($v, krpc.Msg).Q == "" && unbox($v, krpc.Msg).R == nil && unbox($v, krpc.Msg).E == &e
+//@   callsite (*dht.Server).writeToNode one-rated-write-to-the-asker: $node == addr && $rate && !$wait && $b == recorded("marshalled")
+//@   ensures one-send-at-most: count("call:(*dht.Server).writeToNode") <= 1 && count("call:github.com/anacrolix/torrent/bencode.Marshal") == 1
+
+// ---- C07 / C08 / C06: what an inbound datagram can do ----
+//@ func (dht.Addr).String
+//@   trusted
+//@   option uf
+//@   option noalloc
+//@   ensures result == self.String()
+
+//@ spec def handler(s *Server) bool = s != nil && s.store != nil && s.store.s != nil && !held(s.store.mu) && krpcErrMissingArguments.Code == 203 && krpc.ErrorMethodUnknown.Code == 204 && bep44.ErrValueFieldTooBig.Code == 205 && bep44.ErrInvalidSignature.Code == 206 && bep44.ErrSaltFieldTooBig.Code == 207 && bep44.ErrCasHashMismatched.Code == 301 && bep44.ErrSequenceNumberLessThanCurrent.Code == 302 && bep44.Empty32ByteArray == 0 && bep44.ErrItemNotFound != nil
+
+//@ func (*dht.transaction).handleResponse
+//@   trusted
+
+//@ func (*dht.Server).processPacket
+//@   requires nonnil: handler(s) && addr != nil
+//@   requires unlocked: !held(s.mu)
+//@   modifies *
+//@   callsite (*dht.Server).handleQuery only-queries-of-an-open-server: d.Y == "q" && $source == addr && !recorded("closed") && wheld(s.mu)
+//@   callsite (*dht/transactions.Dispatcher[S]).Have the-key-of-this-datagram: $key.RemoteAddr == addr.String() && $key.T == d.T && wheld(s.mu)
+//@   callsite (*dht/transactions.Dispatcher[S]).Pop the-key-of-this-datagram: d.Y != "q" && $key.RemoteAddr == addr.String() && $key.T == d.T && wheld(s.mu)
+//@   callsite go:(*dht.transaction).handleResponse the-matched-transaction: $t == recorded("popped") && count("call:(*dht/transactions.Dispatcher[S]).Pop") == 1
+//@   callsite (*dht.Server).updateNode only-the-sender-of-a-matched-reply: d.Y != "q" && count("call:(*dht/transactions.Dispatcher[S]).Pop") == 1 && $addr == addr && $tryAdd == !d.ReadOnly
+//@   ensures queries-do-not-touch-pending-transactions: d.Y == "q" ==> count("call:(*dht/transactions.Dispatcher[S]).Pop") == 0 && count("go:(*dht.transaction).handleResponse") == 0
+//@   ensures nothing-is-sent-for-non-queries: d.Y != "q" ==> count("call:(*dht.Server).handleQuery") == 0
+//@   ensures one-completion-at-most: count("go:(*dht.transaction).handleResponse") <= 1 && count("go:(*dht.transaction).handleResponse") == count("call:(*dht/transactions.Dispatcher[S]).Pop")
